@@ -139,3 +139,37 @@ func VerifHTMLStartTags(n int) {
 	vAssert(rhCount(out, "<col") == rhCount(in, "<col")-rhCount(in, "<colgroup")+rhCount(out, "<colgroup"), "col elements kept")
 	vReach("end")
 }
+
+// VerifHTMLKeepInConditional (C16): the content of a downlevel-hidden conditional comment, kept by
+// KeepSpecialComments, is minified with the caller's options, not with the defaults: end tags, quotes, default
+// attribute values and white space inside it are kept when the corresponding Keep* option is set.
+func VerifHTMLKeepInConditional(n int) {
+	inner := []string{
+		"<ul><li>a</li><li>b</li></ul><p>x</p>",
+		"<p class=\"c\" id='i'>x</p>",
+		"<form method=\"get\"><input type=\"text\"></form>",
+		"<p>a  b</p>  <p>c</p>",
+	}[vChoice("inner", 4)]
+	in := []byte("<!--[if lt IE 9]>" + inner + "<![endif]--><p>t")
+	o := &Minifier{KeepSpecialComments: true, KeepEndTags: vBool("KeepEndTags"), KeepQuotes: vBool("KeepQuotes"), KeepDefaultAttrVals: vBool("KeepDefaultAttrVals"), KeepWhitespace: vBool("KeepWhitespace")}
+	out, err := verifHTMLRun(in, o)
+	vReach("after-call")
+	vOutput("out", out)
+	vAssert(err == nil, "accepted")
+	vAssert(rhCount(out, "<!--[if lt IE 9]>") == 1 && rhCount(out, "<![endif]-->") == 1, "KeepSpecialComments: conditional comment kept")
+	if o.KeepEndTags {
+		for _, t := range []string{"</p>", "</li>", "</ul>", "</form>"} {
+			vAssert(rhCount(out, t) >= rhCount([]byte(inner), t), "KeepEndTags holds inside the conditional comment")
+		}
+	}
+	if o.KeepQuotes && (o.KeepDefaultAttrVals || rhCount([]byte(inner), "method") == 0) { // attributes that go take their quotes along
+		vAssert(rhCount(out, "\"") >= rhCount([]byte(inner), "\""), "KeepQuotes holds inside the conditional comment")
+	}
+	if o.KeepDefaultAttrVals {
+		vAssert(rhCount(out, "method") == rhCount([]byte(inner), "method") && rhCount(out, "type") == rhCount([]byte(inner), "type"), "KeepDefaultAttrVals holds inside the conditional comment")
+	}
+	if o.KeepWhitespace {
+		vAssert(rhCount(out, "</p> <p>") == rhCount([]byte(inner), "</p>  <p>") || !o.KeepEndTags, "KeepWhitespace holds inside the conditional comment")
+	}
+	vReach("end")
+}
